@@ -69,9 +69,28 @@ CAUSE = {
  'C17-I': 'paths of one matcher never overlapped: Any("c", "c.d") added (caught by C15 at first run)',
  'C17-J': 'YAML scalars were plain: `!!str 10`, `&an 4`, `*an` added with wrong-type Type and a rejecting Custom',
  'C18-I': 'map keys of the Go values were pairwise different under natural ordering: keys equal up to leading zeros added (21 marshallings, fresh processes)',
+ # round 6
+ 'C01-K': 'the multi-entry drivers had test names with `#`, `/`, digits but none with `%`: TestA/50%_off, TestA/%d_%s (and `[x]`, `a:b*?`) added to C01',
+ 'C03-K': 'all pre-existing files were well formed: a file whose last entry lost its terminator is looked up first, then the intact slots of other tests must still replay',
+ 'C03-L': 'a failing call always failed by a diff or a rejected input; a call on a MISSING slot with Update(false) (creation not allowed) added: it consumes its ordinal too',
+ 'C04-K': 'values with a `/-/-/-/` line were only in the thorough pairs: an unchanged value with that line and a change to it added to quick',
+ 'C04-L': 'every pre-existing file ended in a newline: the same files with the final newline trimmed added',
+ 'C05-K': 'the unrelated neighbour entry of the "two entries" cells had no line equal to the addressed id, and the cells were thorough only: now `[TestA - 1]` is a line of the neighbour, in quick',
+ 'C05-L': 'each cell was the first call of its test: the same cells after two failing calls of the same test (into another file) added',
+ 'C07-L': 'names with `: ? *` were thorough only: added to quick (standalone shape)',
+ 'C08-K': 'the generated test files held only real declarations: text that looks like declarations of the other files\' tests added inside a raw string and a block comment',
+ 'C09-K': 'no Go source next to the snapshot directory: `../stale.go` and `../F.go` (no test function inside) added; without -run they protect nothing',
+ 'C11-L': 'one call per test: shape "after a rejected MatchStandaloneJSON of the same test" added (C19 catches the same change)',
+ 'C12-K': 'the JSON option of the pair cases changed indent and key order; one that keeps both defaults and only sets a width added',
+ 'C14-K': 'white space was varied inside documents only: leading/trailing blanks, CR LF and blank lines around the document added',
+ 'C15-L': 'a matcher result was compared at once: it is now kept, another matcher is applied to another document, and the kept bytes are compared again',
+ 'C16-K': 'YAML inputs were rendered from trees (quoted scalars): hand-written pairs with keep-chomping block scalars as last key / last item added',
+ 'C16-L': 'keys were spelled literally: keys spelled with JSON escapes in the text, masked with ErrOnMissingPath(false), added',
+ 'C17-L': 'every Type atom had one path: one Type over three paths with the middle one absent added (with a reference that drops only that path)',
+ 'C19-K': 'update pairs had no pair where the new value is a line-prefix of the old one: a\\nb → a, a\\n → a, a\\nb\\n\\nc → a\\nb added',
  'C19-J': 'test names had `%`, `#`, `/` but none of `: * ? " < > |`: two such names, and pairs of tests whose names differ only there, added',
 }
-letters = {1:'AB',2:'CD',3:'EF',4:'GH',5:'IJ'}[rnd]
+letters = {1:'AB',2:'CD',3:'EF',4:'GH',5:'IJ',6:'KL'}[rnd]
 rows=[]; own=anyc=valid=0
 for d in sorted(glob.glob('/verif/seeded/C??-['+letters+']')):
     m=json.load(open(d+'/meta.json'))
